@@ -7,8 +7,17 @@ package clock
 // The ticking goroutine computes adjusted % period: a zero period would crash it (C14).
 //@ func AlignedTick(period time.Duration, offset time.Duration, bufSize int) <-chan time.Time
 //@   property C14
-//@   trusted
 //@   fresh
 //@   requires[positive_period; C14] period > 0
 //@   requires bufSize >= 0
+//@   modifies spawned("github.com/grafana/carbon-relay-ng/clock.AlignedTick$1")
 //@   ensures result != nil
+//@ // the ticking goroutine: with a positive period its arithmetic cannot fail, and it never blocks on the channel
+//@ func clock.AlignedTick$1()
+//@   property C14
+//@   never_returns
+//@   requires period > 0 && c != nil
+//@   modifies *
+//@   loop 1:
+//@     invariant[wf] period > 0 && c != nil
+//@     assumed_invariant[channel_ownership] !closed(c)
